@@ -447,6 +447,13 @@ impl<VM: VMBinding> MarkCompactSpace<VM> {
         debug!("Compact end: to = {}", to);
 
         // reset the bump pointer
+        #[cfg(mmtk_verif)]
+        crate::util::verif::rt::event(
+            crate::util::verif::rt::ev::PAGES_RESET,
+            self.common.descriptor.get_index(),
+            to.as_usize(),
+            0,
+        );
         self.pr.reset_cursor(to);
     }
 }
